@@ -156,6 +156,9 @@ def run(ctx):
             if isinstance(want, str) and want.startswith('err:') and b.startswith('err:other[') and ']' in b:
                 # unrecognised wording of the message: judged by line (and file), as in err_matches
                 bb = 'err:' + want.split(':')[1] + b.split(']', 1)[1]
+            elif isinstance(want, str) and want.startswith('verr:') and b.startswith('verr:other['):
+                # a validation error whose wording the harness does not know: it is a rejection by validation all the same
+                bb = want
             if kind == 'exact':
                 ok_oracle = (bb == want)
             elif kind == 'prefix':
